@@ -61,6 +61,12 @@ CHECKS = {
              '--verbose refused; interactive stepping (scripted REPL) reaches the same final stack.',
         note='trusted: ref/script.py (C01); pty handling in vf/proc.py; scripts > 480 bytes only via argv',
         ref='5 C08'),
+    'C09': dict(
+        technique='runtime monitoring: set-arithmetic monitor over the flag listing / flag word of the real btcdeb (scripted REPL), behavioural probes, and a relational monotonicity monitor over chains of flag sets (ASan+UBSan build)',
+        text='Exploration: (a) every single +/-NAME list, random lists with duplicates in both orders and 25 malformed lists: the resulting flag word (vdump) and the printed listing must equal standard +/- the list, malformed lists must be rejected; '
+             '(b) 13 behavioural probes whose outcome must flip with exactly one flag; (c) relational: scripts, signature contexts and --tx/--txin spends are run under chains of 6..10 flag sets ordered by inclusion; success under B must imply success under every subset A.',
+        note='trusted: the independent table of flag names/bits and the standard set in ref/script.py; (c) uses the implementation itself as reference (pure relation)',
+        ref='5 C09'),
     'C10': dict(
         technique='runtime monitoring: lock-step reference-model monitor over Instance::step() traces of boundary scripts (ASan+UBSan build)',
         text='Exploration over a deterministic boundary matrix: for each consensus limit (520-byte push, 1000 stack+altstack items, 201 counted ops incl. multisig key counts, 20 multisig keys, 10,000-byte scripts, 4/5-byte numeric operands) '
